@@ -379,8 +379,11 @@ func (c *CaseC16) evalNoDatabase(ob *Obs) []Finding {
 	}
 	with, empty := ob.run(mk(true)), ob.run(mk(false))
 	ob.nontrivial(fmt.Sprintf("nodb/%s/%v/%s", c.NDShape, c.NDFoodYaml, c.NDNamedBy))
-	if with.Panic != "" || empty.Panic != "" || empty.Failed {
+	if empty.Panic != "" || empty.Failed {
 		return nil
+	}
+	if with.Panic != "" {
+		return []Finding{{"C16 no-database-crashes cmd=" + c.NDShape, fmt.Sprintf("--no-database: %s (with an empty book the command works)", short(with.Panic, 120))}}
 	}
 	same := with.Failed == empty.Failed && with.Stdout == empty.Stdout
 	if c.NDShape == "stats" {
